@@ -189,14 +189,16 @@ func runSolver(sp solverSpec, query string, timeoutS int) (string, string, time.
 	cmd.Run()
 	d := time.Since(t0)
 	s := strings.TrimSpace(out.String())
-	first := s
-	if k := strings.IndexByte(s, '\n'); k >= 0 {
-		first = s[:k]
-	}
-	first = strings.TrimSpace(first)
-	switch first {
-	case "unsat", "sat", "unknown":
-		return first, s, d
+	for _, line := range strings.Split(s, "\n") {
+		line = strings.TrimSpace(line)
+		if strings.HasPrefix(line, "WARNING") || line == "" {
+			continue
+		}
+		switch line {
+		case "unsat", "sat", "unknown":
+			return line, s, d
+		}
+		break
 	}
 	if strings.Contains(s, "timeout") || ctx.Err() != nil {
 		return "timeout", s, d
